@@ -68,6 +68,12 @@ def _live_object(prog: Program, res: Result):
     for f in tmp.findings:
         if f.rule == "R01.2":
             res.violation("R05.0", f.key.split("|", 2)[-1], f.where, f.func, f.message + " - the drilling that is sized and reported is not that of the selected candidate")
+        if f.rule == "R01.1" and " records " in f.message:
+            # an excess filed under another candidate's index: the final pick (smallest field with negative excess) reads the wrong table
+            res.violation("R05.0", "recorded|" + f.key.split("|", 2)[-1], f.where, f.func, f.message + " - the final pick may return a candidate that was never evaluated (and is far larger than the smallest sufficient one)")
+    for o in tmp.obligations:
+        if o.rule == "R01.1" and "record" in o.desc:
+            res.ob("R05.0", o.desc, o.ok, o.where)
     for fn in tmp.functions:
         res.analysed(fn)
 
@@ -357,6 +363,21 @@ def _tolerances(prog: Program, res: Result):
     q = "ghedesigner.ground_heat_exchangers.GHE.size"
     fi = prog.func(q)
     res.analysed(q)
+    # the height is sized against the time-step method that was asked for: every simulate() of size() - in the objective handed
+    # to the root finder and after it - receives size()'s own `method` parameter
+    sim_fi = prog.method("ghedesigner.ground_heat_exchangers.GHE", "simulate")
+    sims = [c for c in ast.walk(fi.node) if isinstance(c, ast.Call) and attr_chain(c.func) == "self.simulate"]
+    if not sims:
+        raise AnalysisError(f"{q}: no simulate() call found")
+    mpar = next((p_ for p_ in fi.params() if p_ != "self"), None)
+    for c in sims:
+        b_ = bind_args(sim_fi, c)
+        v_ = b_.get("method")
+        okm = isinstance(v_, ast.Name) and v_.id == mpar
+        res.ob("R05.4", f"size(): '{norm_stmt(c)[:50]}' simulates with the method size() was asked for", okm, prog.loc(fi, c))
+        if not okm:
+            res.violation("R05.4", f"size-method|{ast.unparse(v_)[:40] if v_ is not None else 'default'}", prog.loc(fi, c), q,
+                          f"inside size() a simulation runs with method = {ast.unparse(v_) if v_ is not None else '<default>'} instead of size()'s own parameter: the height is the root of another method's excess than the one that is reported")
     calls = [c for c in ast.walk(fi.node) if isinstance(c, ast.Call) and attr_chain(c.func) == "solve_root"]
     if len(calls) != 1:
         raise AnalysisError(f"{q}: solve_root call not found")
@@ -414,6 +435,8 @@ _TAIL = """        keys = list(self.calculated_temperatures.keys())
 """
 
 VARIANTS = [
+    Variant("sizing objective always simulates with the hybrid time step (seeded C05_d)", "break",
+            [(GHX, "            self.bhe.b.H = h\n            max_hp_eft, min_hp_eft = self.simulate(method=method)", "            self.bhe.b.H = h\n            max_hp_eft, min_hp_eft = self.simulate(method=TimestepType.HYBRID)")], "R05.4"),
     Variant("final pick rewritten as arg-max of the excess among feasible candidates", "break",
             [(SR, _TAIL, "        negative_excess = {k: v for k, v in self.calculated_temperatures.items() if v <= 0.0}\n        selection_key = max(negative_excess, key=negative_excess.get)\n")], "R05.1"),
     Variant("final pick rewritten as arg-min of the field size among feasible candidates", "benign",
